@@ -210,7 +210,14 @@ def direct_check(ctx, schema, res, wrapped, probes):
         ok_default = dv.denominator == 1 and admitted(
             {k: seen.get(k) for k in KEYS[:4]}, dv) and lo_b <= dv <= hi_b
         if not ok_default and wrapped["r"] == "ok":
-            out.append({"kind": "out-of-range-default-accepted", "schema": schema, "default": str(schema["default"])})
+            out.append({"kind": "out-of-range-default-accepted", "schema": schema, "default": str(schema["default"]),
+                        "position": "property"})
+        elif res["r"] == "ok" and res.get("ty") in INT_TYPES and dv.denominator == 1 and abs(dv) < 2**53 and \
+                not (INT_TYPES[res["ty"]][0] <= dv <= INT_TYPES[res["ty"]][1]):
+            # at the root the default of an unnamed integer is attached to nothing; what is demanded
+            # there is that an accepted integral default is at least a value of the chosen type
+            out.append({"kind": "out-of-range-default-accepted", "schema": schema, "default": str(schema["default"]),
+                        "position": "root (add_type)", "chosen": res.get("ty")})
     return out
 
 
